@@ -451,6 +451,22 @@ def r9_names_options_fields(idx, r):
         raise AnalysisError(f"only {k} constructors of the settings model found")
 
 
+def r10_user_names_renamed(idx, r):
+    """The medium writer keeps a default-valued setting exactly when its name is among the names the user's file mentions.  Those names are read
+    raw from the YAML file, which may still use OLD names (accepted and renamed by the reader): they must go through the same renamer before they
+    are compared with current setting names, or a setting entered under its old name is dropped from the medium output."""
+    f = idx.method(SETTINGS, "getSettingsSetByUser")
+    rets = [x for x in walk_local(f.node) if isinstance(x, ast.Return) and x.value is not None]
+    if len(rets) != 1:
+        raise AnchorMissing("Settings.getSettingsSetByUser: one return")
+    v = propagate(rets[0].value, single_assign_env(f.node))
+    r.require(any(isinstance(c, ast.Call) and call_attr(c) == "renameSetting" for c in ast.walk(v)), "getSettingsSetByUser:names-renamed", f, node=rets[0],
+              msg=f"the user's names are returned as `{norm(v)[:70]}`, i.e. as spelled in the file: a setting entered under an accepted old name (burnTime, numProcessors ...) is not recognised "
+                  "as user-set and the medium style omits it when it has its default value")
+    users = [fn for fn in idx.module(IO).all_funcs() if any(isinstance(x, ast.Attribute) and x.attr == "settingsSetByUser" and isinstance(x.ctx, ast.Load) for x in ast.walk(fn.node))]
+    r.require(bool(users), "writer:consults-user-names", users[0] if users else f, msg="the writer consults the user-set names")
+
+
 def run(idx, chk):
     chk.explanation = (
         "C17: schema validation dominating the store in Setting.setValue and the frozen writers of Setting._value; the renamed name being the one "
@@ -472,3 +488,5 @@ def run(idx, chk):
                  necessary="a settings object is the same before and after being written; written and original must agree")
     chk.run_rule("R17.9", "current names are never renamed; a grown option list rebuilds the schema; constructor fields take their own argument", lambda r: r9_names_options_fields(idx, r), floor=6,
                  necessary="every setting reads back under its own name with its own value, and a type/option violation is rejected")
+    chk.run_rule("R17.10", "the names a user's file mentions are renamed to current names before the medium writer compares them", lambda r: r10_user_names_renamed(idx, r), floor=2,
+                 necessary="medium style keeps every setting the user entered, under whatever accepted name")
